@@ -604,7 +604,7 @@ pub fn run(e: &dyn Engine, o: &Opts) -> Report {
                 let m = &model[off..off + n];
                 off += n;
                 if let Some(d) = first_diff(e, &c.lines, &outcomes[k].resp, m) {
-                    if report.disagreements.len() >= 5 || outcomes[k].hung {
+                    if report.disagreements.len() >= 5 || outcomes[k].hung || (e.isolated() && !report.disagreements.is_empty()) {
                         // Count but do not minimise more than five.
                         report.disagreements.push(Disagreement {
                             origin: origin.clone(),
@@ -627,7 +627,7 @@ pub fn run(e: &dyn Engine, o: &Opts) -> Report {
                         }
                         continue;
                     }
-                    let min = minimise(e, &o.driver, &c.lines, 400);
+                    let min = minimise(e, &o.driver, &c.lines, if e.isolated() { 80 } else { 400 });
                     let imp = exec_impl(e, &min);
                     let mm = run_driver(&o.driver, e.name(), &model_lines(&min, &imp)).unwrap_or_default();
                     let fd = first_diff(e, &min, &imp.resp, &mm).unwrap_or(0);
